@@ -437,3 +437,24 @@ Proof.
   unfold hdr_of. cbn [empty_header extension_profile]. rewrite (meaning_wire_of _ Hp).
   cbn [as_packet hdr]. rewrite Hs. reflexivity.
 Qed.
+
+(* Marshal loses nothing: two well-formed packets with the same wire image are the same packet *)
+Theorem packet_marshal_injective : forall p1 p2 bs, wf_packet p1 -> wf_packet p2 ->
+  packet_marshal p1 = Ok bs -> packet_marshal p2 = Ok bs -> p1 = p2.
+Proof.
+  intros p1 p2 bs H1 H2 M1 M2.
+  destruct (packet_roundtrip p1 H1) as (b1 & Hm1 & _ & o1 & U1).
+  destruct (packet_roundtrip p2 H2) as (b2 & Hm2 & _ & o2 & U2).
+  assert (b1 = bs) by congruence. assert (b2 = bs) by congruence. subst b1 b2.
+  rewrite U1 in U2. congruence.
+Qed.
+
+Theorem header_marshal_injective : forall h1 h2 bs, wf_header h1 -> wf_header h2 ->
+  header_marshal h1 = Ok bs -> header_marshal h2 = Ok bs -> h1 = h2.
+Proof.
+  intros h1 h2 bs H1 H2 M1 M2.
+  destruct (header_roundtrip h1 H1) as (b1 & Hm1 & _ & o1 & U1).
+  destruct (header_roundtrip h2 H2) as (b2 & Hm2 & _ & o2 & U2).
+  assert (b1 = bs) by congruence. assert (b2 = bs) by congruence. subst b1 b2.
+  rewrite U1 in U2. congruence.
+Qed.
